@@ -8,7 +8,10 @@ static void* verif_memcpy(void* d, const void* s, size_t n)
   if (n != 0) {
     VERIF_ASSERT(__CPROVER_r_ok(s, n), "check: memcpy source readable");
     VERIF_ASSERT(__CPROVER_w_ok(d, n), "check: memcpy destination writable");
-    __CPROVER_havoc_slice(d, n);
+    if (n <= 16) { /* short copies (the 8-byte double<->int64 punning) are exact */
+      for (size_t i = 0; i < 16; ++i) if (i < n) ((char*)d)[i] = ((const char*)s)[i];
+    } else
+      __CPROVER_havoc_slice(d, n);   /* contents abstracted: content facts are back end B's job */
   }
   return d;
 }
